@@ -173,6 +173,36 @@ func (hc *HistCheck) RunLayers(layers []Layer, budget time.Duration, assumptions
 	if hc.rep == nil {
 		hc.rep = ev.NewReporter(hc.ID)
 	}
+	total, reports := hc.runLayers(layers, budget)
+	if hc.harnessErr != nil {
+		fmt.Fprintf(os.Stderr, "HARNESS ERROR (no verdict): %v\n", hc.harnessErr)
+		return 2
+	}
+	return hc.finish(t, total, reports, assumptions, rule)
+}
+
+// RunLayersPart runs layers as one phase of a check that writes its own evidence (the caller supplies the
+// reporter): it returns the coverage of the phase; ok=false means a harness error or an unconfirmed oracle
+// failure (already printed) and the caller must end with exit 2.
+func (hc *HistCheck) RunLayersPart(rep *ev.Reporter, layers []Layer, budget time.Duration) (cov map[string]any, ok bool) {
+	hc.rep = rep
+	total, reports := hc.runLayers(layers, budget)
+	if hc.harnessErr != nil {
+		fmt.Fprintf(os.Stderr, "HARNESS ERROR (no verdict): %v\n", hc.harnessErr)
+		return nil, false
+	}
+	if hc.unconfirmed > 0 && rep.Unknown() == 0 {
+		fmt.Fprintf(os.Stderr, "HARNESS ERROR (no verdict): %d oracle failures did not reproduce on replay, e.g. %s\n", hc.unconfirmed, hc.unconfirmedMsg)
+		return nil, false
+	}
+	return map[string]any{
+		"states": total.States, "transitions": total.Transitions, "traces_validated_against_impl": total.LegalRuns,
+		"evaluations": total.Runs, "distinct_nontrivial": total.DistinctOutcome, "exhaustive": total.Exhaustive,
+		"cap_hit": total.CapHit, "layers": reports, "top_outcomes": total.OutcomeList(12),
+	}, true
+}
+
+func (hc *HistCheck) runLayers(layers []Layer, budget time.Duration) (*explore.Stats, []LayerReport) {
 	deadline := time.Now().Add(budget)
 	total := &explore.Stats{Exhaustive: true, Outcomes: map[string]int{}}
 	var reports []LayerReport
@@ -197,10 +227,10 @@ func (hc *HistCheck) RunLayers(layers []Layer, budget time.Duration, assumptions
 			break
 		}
 	}
-	if hc.harnessErr != nil {
-		fmt.Fprintf(os.Stderr, "HARNESS ERROR (no verdict): %v\n", hc.harnessErr)
-		return 2
-	}
+	return total, reports
+}
+
+func (hc *HistCheck) finish(t ev.Timer, total *explore.Stats, reports []LayerReport, assumptions []string, rule string) int {
 	samples := []any{}
 	for _, s := range total.Samples {
 		samples = append(samples, s)
